@@ -21,7 +21,7 @@ import os
 import sys
 
 from ..core.seeds import stream
-from .universe import STRESS, context_params, get_func, make_context, req_key
+from .universe import STRESS, context_params, get_func, make_context, print_options, req_key
 
 
 class InjectedFault(BaseException):
@@ -379,8 +379,12 @@ class Executor:
             tmp_before = self.tmp_counter()
             box = []
 
+            pkw, rename = print_options(req.get("params"), req["func"])
+
             def fn():
-                box.append(g.tostring(tm, debug=debug))
+                if rename:
+                    g.props.update(name=rename)
+                box.append(g.tostring(tm, debug=debug, **pkw))
                 return g
 
             self.guarded(req, "printed_raw" if raw else "printed", fn, fault)
